@@ -202,7 +202,46 @@ class Interp:
         finally:
             self.init_depth -= 1
             self.site = saved_site
+        self._mark_shared(ns)
         return ns
+
+    def _mark_shared(self, ns: dict) -> None:
+        """Everything reachable from a module namespace after import is process-wide shared state."""
+        stack = list(ns.values())
+        seen: set[int] = set()
+        while stack:
+            v = stack.pop()
+            if id(v) in seen:
+                continue
+            seen.add(id(v))
+            if isinstance(v, (AList, ASet)):
+                v.shared = True
+                stack.extend(v.items)
+            elif isinstance(v, ADict):
+                v.shared = True
+                for a, b in v.pairs:
+                    stack.append(a)
+                    stack.append(b)
+            elif isinstance(v, Obj):
+                v.shared = True
+                stack.extend(v.attrs.values())
+                if v.tuple_items:
+                    stack.extend(v.tuple_items)
+            elif isinstance(v, (Msg, ExtObj)):
+                v.shared = True
+                if isinstance(v, ExtObj):
+                    stack.extend(v.attrs.values())
+                else:
+                    stack.extend(v.fields.values())
+            elif isinstance(v, ClassInfo):
+                if v.module in self.modules or True:
+                    stack.extend(v.attrs.values())
+            elif isinstance(v, FuncRef):
+                stack.extend(v.defaults.values())
+            elif isinstance(v, SingleDispatch):
+                v.shared = True
+            elif isinstance(v, tuple):
+                stack.extend(v)
 
     def resolve_import(self, modname: str) -> Any:
         if modname in self.program.modules or modname in SCHEMA_MODULES:
@@ -1527,13 +1566,13 @@ class Interp:
                 if isinstance(y, int) and not isinstance(y, bool) or isinstance(y, bool):
                     if isinstance(x, tuple):
                         self.emit("alloc", what="tuple*n", size=y)
-                        if y > 100_000:
-                            raise BudgetExceeded(f"tuple repetition of size {y}")
+                        if y > 10_000:
+                            return Unknown(("huge-seq", y), f"sequence of {y} items")
                         return x * y
                     if isinstance(x, AList):
                         self.emit("alloc", what="list*n", size=y)
-                        if y > 100_000:
-                            raise BudgetExceeded(f"list repetition of size {y}")
+                        if y > 10_000:
+                            return Unknown(("huge-seq", y), f"sequence of {y} items")
                         return AList(x.items * y)
                     if isinstance(x, str):
                         return x * y
